@@ -278,6 +278,7 @@ HG_QUICK = [
     # comparator finer than the elements' operator== (two elements that are == can both belong to the set)
     HGCfg("TC4", "fine", "v", "amc"),
     HGCfg("NTR", "fine", "s3", "basic"),
+    HGCfg("TC8", "tless", "v", "amc"),  # transparent comparator: a value of another type must be converted before the position is searched
 ]
 HG_THOROUGH = [
     HGCfg("TR", "stateful", "v", "basic"),
